@@ -738,6 +738,7 @@ def blocks_rule(ctx):
     neg_region = b.dominated_by(neg_bb)
     # inside the negative region: switch on `ignored` param
     ign = None
+    ign_value = 1
     for sbb in sorted(neg_region):
         if b.term(sbb)['k'] == 'switch':
             si = b.switch_info(sbb)
@@ -746,10 +747,51 @@ def blocks_rule(ctx):
                 t0 = [x['bb'] for x in b.term(sbb)['targets'] if x['v'] == 0]
                 if t0:
                     ign = (si['otherwise'], t0[0])
+    if ign is None:
+        # the flag as a two-variant field-less enum (`BlockContents::{Deserialized, Ignored}`): the ignoring arm is the one
+        # that skips
+        for sbb in sorted(neg_region):
+            if b.term(sbb)['k'] == 'switch':
+                si = b.switch_info(sbb)
+                if si.get('kind') != 'enum' or origin(b, si['place']).params() != {2}:
+                    continue
+                a_ = f.adts.get(si.get('adt') or '')
+                if not a_ or len(a_.get('variants', [])) != 2 or any(v.get('fields') for v in a_['variants']):
+                    continue
+                tg = dict(si['variants'])
+                for v_ in (si.get('otherwise_variants') or []):
+                    tg.setdefault(v_, si['otherwise'])
+                if len(tg) == 2:
+                    (v1, b1), (v2, b2) = sorted(tg.items())
+                    s1 = any(x[0] in b.dominated_by(b1) for x in skips)
+                    s2 = any(x[0] in b.dominated_by(b2) for x in skips)
+                    if s1 != s2:
+                        ign = (b1, b2) if s1 else (b2, b1)
+                        ign_value = v1 if s1 else v2
     ctx.ob('BLOCKS', 'read_block_len/ignored-split', ign is not None, short_loc(b.span), 'negative branch splits on `ignored`: %s' % (ign is not None))
     if ign is None:
         return
     ign_reg, keep_reg = b.dominated_by(ign[0]), b.dominated_by(ign[1])
+    # who asks for the skipping: only the entry point that was told the value is ignored.  Anywhere else the elements of a
+    # size-prefixed block would be jumped over and the visitor handed an empty (or shorter) collection, under an Ok
+    sites, wrong = 0, []
+    for x in f.body_list:
+        if not x.id.startswith(('de::deserializer::', '<de::deserializer::')):
+            continue
+        for xb, xt in x.calls():
+            if x.is_cleanup(xb) or not strip_generics(cname(xt)).endswith('types::blocks::BlockReader::new') or len(xt.get('args', [])) < 2:
+                continue
+            sites += 1
+            v_ = const_int(xt['args'][1])
+            if v_ is None:
+                vs_ = sorted({a[2] for a in origin(x, xt['args'][1]).atoms if a[0] == 'agg'})
+                v_ = vs_[0] if len(vs_) == 1 else None
+            asks = (v_ == ign_value)
+            in_ignored = fn_label(x).split('::{closure')[0].endswith('::deserialize_ignored_any')
+            if v_ is None or asks != in_ignored:
+                wrong.append('%s passes %s at %s' % (short_fn(fn_label(x)), v_, short_loc(xt.get('span'))))
+    ctx.ob('BLOCKS', 'skipping-asked-only-by-ignored_any', sites >= 2 and not wrong, short_loc(b.span),
+           '%d BlockReader::new call sites; the skipping value (%s) passed outside deserialize_ignored_any, or not passed inside it: %s' % (sites, ign_value, wrong or 'none'))
     r_ign = [x for x in reads if x[0] in ign_reg]
     r_keep = [x for x in reads if x[0] in keep_reg]
     ctx.ob('BLOCKS', 'read_block_len/size-read-when-ignoring', len(r_ign) == 1 and r_ign[0][2] == ('VARINT', 'i64'), short_loc(b.span),
